@@ -97,7 +97,8 @@ class Report:
                 out_lines.append("KNOWN-FINDING: property=%s %s [%s]" % (self.pid, known[k], v["key"]))
             else:
                 unknown.append(v)
-        ev_dir = os.path.join(VERIF, "evidence")
+        # developer tools that run the checks on a deliberately broken tree redirect the evidence elsewhere
+        ev_dir = os.environ.get("JRSA_EVIDENCE_DIR") or os.path.join(VERIF, "evidence")
         os.makedirs(ev_dir, exist_ok=True)
         rp_dir = os.path.join(ev_dir, "replay")
         os.makedirs(rp_dir, exist_ok=True)
